@@ -42,8 +42,27 @@ static std::string join(const std::vector<std::string>& v)
 
 static void report(const std::string& lbl, const ipr::Node& n);
 
+// The constants every Lexicon shares, as seen by the initializer of a namespace-scope object of a translation unit that is
+// linked BEFORE the library (this file comes first on the link line) and again from main(): a node is what its category says
+// from the moment a client can reach it.
+static void constants(const std::string& pfx)
+{
+   ipr::impl::Lexicon lex;
+#define K(N) { std::printf("%s" #N " category=%d\n", pfx.c_str(), int(lex.N().category)); std::fflush(stdout); report(pfx + #N, lex.N()); }
+   K(void_type) K(bool_type) K(char_type) K(schar_type) K(uchar_type) K(wchar_t_type) K(char8_t_type) K(char16_t_type) K(char32_t_type)
+   K(short_type) K(ushort_type) K(int_type) K(uint_type) K(long_type) K(ulong_type) K(long_long_type) K(ulong_long_type)
+   K(float_type) K(double_type) K(long_double_type) K(ellipsis_type) K(typename_type) K(class_type) K(union_type) K(enum_type)
+   K(namespace_type) K(false_value) K(true_value) K(nullptr_value) K(default_value) K(delete_value)
+#undef K
+   report(pfx + "nullptr_value.type", lex.nullptr_value().type());
+   report(pfx + "int_type.name", lex.int_type().name());
+   report(pfx + "empty_string", ipr::String::empty_string());
+   std::fflush(stdout);
+}
+
 int main()
 {
+   constants("inmain:");
    iprv::Zoo zoo;
    zoo.build();
    for (auto& e : zoo.nodes) report(e.label, *e.node);
@@ -77,4 +96,9 @@ static void report(const std::string& lbl, const ipr::Node& n)
       std::printf("%s cat=%s full=%s sinks=%s views=%s\n", label.c_str(), cat_name(n.category),
                   join(all.ran).c_str(), join(sk.ran).c_str(), join(views).c_str());
    }
+}
+
+namespace {
+   struct Before_main { Before_main() { constants("premain:"); } };
+   const Before_main before_main;
 }
